@@ -70,7 +70,12 @@ pub fn run_gate(case: &Value) -> Value {
         Ok(x) => x,
         Err(e) => return json!({"r": "ctor_err", "e": e}),
     };
-    let r = std::panic::catch_unwind(std::panic::AssertUnwindSafe(|| op.apply(&st, &ts, &cs)));
+    // optional "pool": run inside a rayon pool of that many worker threads (thread counts that are not powers of two)
+    let pool_n = case.get("pool").map(vu);
+    let r = std::panic::catch_unwind(std::panic::AssertUnwindSafe(|| match pool_n {
+        Some(p) => rayon::ThreadPoolBuilder::new().num_threads(p).build().unwrap().install(|| op.apply(&st, &ts, &cs)),
+        None => op.apply(&st, &ts, &cs),
+    }));
     let hits = hook.hits();
     hook.set(10);
     let mut out = match r {
